@@ -3,6 +3,7 @@ import GldapModel.Generated.Facts
 import GldapModel.Gldap.ControlEncode
 import GldapModel.Gldap.Response
 import GldapModel.Gldap.Mux
+import GldapModel.Directory.Bind
 /-! `gmodel`: one line in, one line out. The Go harness feeds the same cases to the real
     gldap and to this driver and diffs the two output streams. -/
 open Ber Gldap Driver
@@ -125,6 +126,17 @@ def doMux (regs : List (Reg Nat)) (bs : Bytes) (dec : Option Bytes) : String :=
   | .err => "decode-err"
   | .panic => "decode-panic"
 
+/-- `<dnhex>/<name>=<v>,<v>/<name>=...` -/
+def parseEntry (s : String) : Option Directory.Entry :=
+  match s.splitOn "/" with
+  | [] => none
+  | dn :: attrs => do
+    let d ← unhex dn
+    let as ← (attrs.filter (· ≠ "")).mapM parseAttr
+    pure ⟨d, as.map fun a => newEntryAttribute a.1 a.2⟩
+
+def parseEntries (s : String) : Option (List Directory.Entry) := (splitNE s "|").mapM parseEntry
+
 def handle (line : String) : String :=
   match (line.splitOn " ").filter (· ≠ "") with
   | ["ber", h] => match unhex h with
@@ -164,6 +176,13 @@ def handle (line : String) : String :=
        | some regs => doMux regs bs dec
        | none => "bad-input")
     | _, _, _ => "bad-input"
+  | ["tdbind", a, u, dn, pw] =>
+    match stripPrefix a "anon=", stripPrefix u "users=", unhex dn, unhex pw with
+    | some a, some u, some dn, some pw =>
+      (match parseBool a, parseEntries u with
+       | some a, some us => s!"code={Directory.handleBind us a dn pw}"
+       | _, _ => "bad-input")
+    | _, _, _, _ => "bad-input"
   | ["behera", g, e, c] =>
     match parseOptNat g, parseOptNat e, parseOptNat c with
     | some g, some e, some c => renderOutcome renderControl (newBehera Generated.beheraErrRange g e c)
